@@ -37,45 +37,63 @@ theorem C04_skip_list_is_spec : (skip.all specSkip.contains && specSkip.all skip
 /-- no header_upstream rule is aimed at `k` -/
 def Untargeted (rules : Rules) (k : Str) : Prop := (rules.map fun r => ruleTarget r.1).contains k = false
 
+/-- nothing configured touches `k` on the way up: no rule, no replacement, and it is not the
+Authorization header of a backend with credentials -/
+def Plain (u : Upstream) (k : Str) : Prop :=
+  Untargeted u.upRules k ∧ (replTargets u.upRepls).contains k = false ∧ (u.cred = none ∨ k ≠ sAuthorization)
+
+theorem post_plain (repl : Str → Str) (u : Upstream) (k : Str) (hp : Plain u k) (s : List Str) :
+    replEffect repl u.upRepls k (ruleEffect repl u.upRules k (credEffect u.cred k s)) = s := by
+  obtain ⟨h1, h2, h3⟩ := hp
+  rw [replEffect_none _ _ _ _ h2, ruleEffect_none _ _ _ _ h1]
+  unfold credEffect
+  rcases h3 with h3 | h3
+  · rw [h3]
+  · cases u.cred with
+    | none => rfl
+    | some c =>
+      have : (k == sAuthorization) = false := by simp [h3]
+      simp [this]
+
 /-- Master statement: for every header name, the value list the backend receives is the
 client's list with hop-by-hop names emptied, the client address folded into X-Forwarded-For and
 the one rule aimed at that name applied — for every request, header multiset, `Connection`
 header, remote address and non-interfering rule set. -/
 theorem C04_request_headers_exact (hl : List Str) (hc : CanonicalNames hl) (repl : Str → Str) (u : Upstream)
-    (r : Request) (hne : Hdr.NoEmpty r.header) (hni : nonInterfering u.upRules = true) (k : Str) :
+    (r : Request) (hne : Hdr.NoEmpty r.header) (hni : nonInterfering u.upRules = true) (hrd : replsDistinct u.upRepls = true) (k : Str) :
     (forward hl repl u r).header.vals k = expectReqVals hl repl u r k :=
-  vals_forward hl hc repl u r hne hni k
+  vals_forward hl hc repl u r hne hni hrd k
 
 /-- End-to-end headers reach the backend intact (same values, same order, duplicates kept). -/
 theorem C04_end_to_end_headers_preserved (hl : List Str) (hc : CanonicalNames hl) (repl : Str → Str) (u : Upstream)
-    (r : Request) (hne : Hdr.NoEmpty r.header) (hni : nonInterfering u.upRules = true) (k : Str)
-    (he2e : isHop hl r.header k = false) (hx : k ≠ sXFF) (hr : Untargeted u.upRules k) :
+    (r : Request) (hne : Hdr.NoEmpty r.header) (hni : nonInterfering u.upRules = true) (hrd : replsDistinct u.upRepls = true) (k : Str)
+    (he2e : isHop hl r.header k = false) (hx : k ≠ sXFF) (hr : Plain u k) :
     (forward hl repl u r).header.vals k = r.header.vals k := by
-  rw [vals_forward hl hc repl u r hne hni]
+  rw [vals_forward hl hc repl u r hne hni hrd]
   unfold expectReqVals
   have : (k == sXFF) = false := by simp [hx]
   simp only [he2e, this, Bool.false_eq_true, if_false]
-  exact ruleEffect_none _ _ _ _ hr
+  exact post_plain repl u k hr _
 
 /-- A hop-by-hop header never reaches the backend, whatever its values are (unless a configured
 rule re-adds it, as the `websocket` preset does). -/
 theorem C04_hop_removed (hl : List Str) (hc : CanonicalNames hl) (repl : Str → Str) (u : Upstream)
-    (r : Request) (hne : Hdr.NoEmpty r.header) (hni : nonInterfering u.upRules = true) (k : Str)
-    (hk : k ∈ hl) (hx : k ≠ sXFF) (hr : Untargeted u.upRules k) :
+    (r : Request) (hne : Hdr.NoEmpty r.header) (hni : nonInterfering u.upRules = true) (hrd : replsDistinct u.upRepls = true) (k : Str)
+    (hk : k ∈ hl) (hx : k ≠ sXFF) (hr : Plain u k) :
     (forward hl repl u r).header.vals k = [] := by
-  rw [vals_forward hl hc repl u r hne hni]
+  rw [vals_forward hl hc repl u r hne hni hrd]
   unfold expectReqVals
   have h1 : isHop hl r.header k = true := by simp [isHop, hk]
   have : (k == sXFF) = false := by simp [hx]
   simp only [h1, this, if_true, Bool.false_eq_true, if_false]
-  exact ruleEffect_none _ _ _ _ hr
+  exact post_plain repl u _ hr _
 
 /-- A header named on any line of `Connection` (any case, any spacing) never reaches the backend. -/
 theorem C04_connection_listed_removed (hl : List Str) (hc : CanonicalNames hl) (repl : Str → Str) (u : Upstream)
-    (r : Request) (hne : Hdr.NoEmpty r.header) (hni : nonInterfering u.upRules = true) (name : Str)
-    (hk : name ∈ connListed r.header) (hx : canon name ≠ sXFF) (hr : Untargeted u.upRules (canon name)) :
+    (r : Request) (hne : Hdr.NoEmpty r.header) (hni : nonInterfering u.upRules = true) (hrd : replsDistinct u.upRepls = true) (name : Str)
+    (hk : name ∈ connListed r.header) (hx : canon name ≠ sXFF) (hr : Plain u (canon name)) :
     (forward hl repl u r).header.vals (canon name) = [] := by
-  rw [vals_forward hl hc repl u r hne hni]
+  rw [vals_forward hl hc repl u r hne hni hrd]
   unfold expectReqVals
   have h1 : isHop hl r.header (canon name) = true := by
     simp only [isHop, Bool.or_eq_true]
@@ -84,29 +102,52 @@ theorem C04_connection_listed_removed (hl : List Str) (hc : CanonicalNames hl) (
     exact ⟨name, hk, rfl⟩
   have : (canon name == sXFF) = false := by simp [hx]
   simp only [h1, this, if_true, Bool.false_eq_true, if_false]
-  exact ruleEffect_none _ _ _ _ hr
+  exact post_plain repl u _ hr _
 
 /-- X-Forwarded-For at the backend is one value: the prior values joined by ", " followed by the
 client address (just the client address when there was none). -/
 theorem C04_xff_appended (hl : List Str) (hc : CanonicalNames hl) (repl : Str → Str) (u : Upstream)
-    (r : Request) (hne : Hdr.NoEmpty r.header) (hni : nonInterfering u.upRules = true) (ip port : Str)
+    (r : Request) (hne : Hdr.NoEmpty r.header) (hni : nonInterfering u.upRules = true) (hrd : replsDistinct u.upRepls = true) (ip port : Str)
     (haddr : splitHostPort r.remoteAddr = some (ip, port))
-    (hnh : isHop hl r.header sXFF = false) (hr : Untargeted u.upRules sXFF) :
+    (hnh : isHop hl r.header sXFF = false) (hr : Plain u sXFF) :
     (forward hl repl u r).header.vals sXFF =
       [if r.header.vals sXFF != [] then joinCommaSpace (r.header.vals sXFF) ++ commaSpace ++ ip else ip] := by
-  rw [vals_forward hl hc repl u r hne hni]
+  rw [vals_forward hl hc repl u r hne hni hrd]
   unfold expectReqVals
   simp only [hnh, haddr, beq_self_eq_true, Bool.false_eq_true, if_false, if_true]
-  exact ruleEffect_none _ _ _ _ hr
+  exact post_plain repl u _ hr _
 
-/-- Exactly the configured header_upstream changes: the headers with the rules equal the rule
-effect on the headers without any rule, name by name. -/
+/-- Exactly the configured header_upstream changes: the headers with the rules and replacements
+equal the replacement effect of the rule effect on the headers without them, name by name. -/
 theorem C04_upstream_rules_exact (hl : List Str) (hc : CanonicalNames hl) (repl : Str → Str) (u : Upstream)
-    (r : Request) (hne : Hdr.NoEmpty r.header) (hni : nonInterfering u.upRules = true) (k : Str) :
+    (r : Request) (hne : Hdr.NoEmpty r.header) (hni : nonInterfering u.upRules = true) (hrd : replsDistinct u.upRepls = true) (k : Str) :
     (forward hl repl u r).header.vals k =
-      ruleEffect repl u.upRules k ((forward hl repl { u with upRules := [] } r).header.vals k) := by
-  rw [vals_forward hl hc repl u r hne hni, vals_forward hl hc repl _ r hne rfl]
+      replEffect repl u.upRepls k (ruleEffect repl u.upRules k
+        ((forward hl repl { u with upRules := [], upRepls := [] } r).header.vals k)) := by
+  rw [vals_forward hl hc repl u r hne hni hrd, vals_forward hl hc repl _ r hne rfl rfl]
   rfl
+
+/-- The upstream credentials of the backend URL are sent exactly when the client sent no
+Authorization value of its own (and no rule or replacement is aimed at that header). -/
+theorem C04_upstream_credentials (hl : List Str) (hc : CanonicalNames hl) (repl : Str → Str) (u : Upstream)
+    (r : Request) (hne : Hdr.NoEmpty r.header) (hni : nonInterfering u.upRules = true) (hrd : replsDistinct u.upRepls = true)
+    (c : Str) (hcred : u.cred = some c) (hnh : isHop hl r.header sAuthorization = false)
+    (hr : Untargeted u.upRules sAuthorization) (hr2 : (replTargets u.upRepls).contains sAuthorization = false) :
+    (forward hl repl u r).header.vals sAuthorization =
+      if (r.header.vals sAuthorization).headD [] == [] then [c] else r.header.vals sAuthorization := by
+  rw [vals_forward hl hc repl u r hne hni hrd]
+  unfold expectReqVals
+  have : (sAuthorization == sXFF) = false := by decide
+  simp only [hnh, this, Bool.false_eq_true, if_false]
+  rw [replEffect_none _ _ _ _ hr2, ruleEffect_none _ _ _ _ hr, hcred]
+  simp [credEffect]
+
+/-- The Host the backend is addressed with is the backend's own, unless the configuration produces a
+Host header (as `transparent` does), whose last value is used. -/
+theorem C04_host_exact (hl : List Str) (hc : CanonicalNames hl) (repl : Str → Str) (u : Upstream)
+    (r : Request) (hne : Hdr.NoEmpty r.header) (hni : nonInterfering u.upRules = true) (hrd : replsDistinct u.upRepls = true) :
+    (forward hl repl u r).host = expectHost hl repl u r :=
+  forward_host hl hc repl u r hne hni hrd
 
 /-- The path is the base path joined by exactly one slash to the request path minus `without`. -/
 theorem C04_path_exact (hl : List Str) (repl : Str → Str) (u : Upstream) (r : Request) :
@@ -148,16 +189,17 @@ theorem C04_method_body_untouched (hl : List Str) (repl : Str → Str) (u : Upst
 /-- The whole judged request-side predicate: the model's answer always gets the verdict "ok".
 (The same `verdictReq` is applied by the driver to the implementation's answers.) -/
 theorem C04_request_model_verdict_ok (hl : List Str) (hc : CanonicalNames hl) (repl : Str → Str) (u : Upstream)
-    (r : Request) (hne : Hdr.NoEmpty r.header) (hni : nonInterfering u.upRules = true) (hb : BodyConsistent r) :
+    (r : Request) (hne : Hdr.NoEmpty r.header) (hni : nonInterfering u.upRules = true) (hrd : replsDistinct u.upRepls = true) (hb : BodyConsistent r) :
     verdictReq hl repl u r (forward hl repl u r) = "ok" := by
   obtain ⟨_, _, h3⟩ := C04_method_body_untouched hl repl u r hb
   have hfind : (reqKeys hl u r (forward hl repl u r)).find?
       (fun k => (forward hl repl u r).header.vals k != expectReqVals hl repl u r k) = none := by
     rw [List.find?_eq_none]
     intro k _
-    simp [vals_forward hl hc repl u r hne hni k]
+    simp [vals_forward hl hc repl u r hne hni hrd k]
   unfold verdictReq
-  rw [forward_method, forward_contentLength, forward_url, director_path, director_rawPath, director_query, h3, hfind]
+  rw [forward_method, forward_contentLength, forward_url, director_path, director_rawPath, director_query, h3, hfind,
+    forward_host hl hc repl u r hne hni hrd]
   simp
 
 /-- A retried request is exactly what a first attempt at the second backend would have been: nothing
@@ -304,7 +346,7 @@ theorem expectRespVals_spec (repl : Str → Str) (down : Rules) (pre : Hdr) (res
 
 /-- The request-side verdict the driver computes on the model's own answer is "ok". -/
 theorem C04_request_driver_verdict_ok (repl : Str → Str) (u : Upstream) (r : Request)
-    (hne : Hdr.NoEmpty r.header) (hni : nonInterfering u.upRules = true) (hb : BodyConsistent r) :
+    (hne : Hdr.NoEmpty r.header) (hni : nonInterfering u.upRules = true) (hrd : replsDistinct u.upRepls = true) (hb : BodyConsistent r) :
     verdictReq specHop repl u r (forward hop repl u r) = "ok" := by
   obtain ⟨_, _, h3⟩ := C04_method_body_untouched hop repl u r hb
   have hfind : (reqKeys specHop u r (forward hop repl u r)).find?
@@ -312,9 +354,13 @@ theorem C04_request_driver_verdict_ok (repl : Str → Str) (u : Upstream) (r : R
     rw [List.find?_eq_none]
     intro k _
     rw [expectReqVals_spec]
-    simp [vals_forward hop C04_hop_names_canonical repl u r hne hni k]
+    simp [vals_forward hop C04_hop_names_canonical repl u r hne hni hrd k]
+  have hhost : (forward hop repl u r).host = expectHost specHop repl u r := by
+    rw [forward_host hop C04_hop_names_canonical repl u r hne hni hrd]
+    unfold expectHost
+    rw [expectReqVals_spec]
   unfold verdictReq
-  rw [forward_method, forward_contentLength, forward_url, director_path, director_rawPath, director_query, h3, hfind]
+  rw [forward_method, forward_contentLength, forward_url, director_path, director_rawPath, director_query, h3, hfind, hhost]
   simp
 
 /-- The response-side verdict the driver computes on the model's own answer is "ok". -/
